@@ -15,6 +15,9 @@ RootS == <<SF(1, "f_double", "double", "one", FALSE, "", ""), SF(2, "f_float", "
            SF(18, "r_int32", "int32", "rep", TRUE, "", ""), SF(19, "r_sint64", "sint64", "rep", FALSE, "", ""), SF(20, "r_string", "string", "rep", FALSE, "", ""),
            SF(21, "r_sub", "message", "rep", FALSE, "Sub", ""), SF(22, "m_str_i32", "int32", "map", FALSE, "", "string"),
            SF(2047, "m_i64_sub", "message", "map", FALSE, "Sub", "int64"), SF(2048, "m_u32_str", "string", "map", FALSE, "", "uint32"),
+           SF(30, "k_bool", "int32", "map", FALSE, "", "bool"), SF(31, "k_int32", "string", "map", FALSE, "", "int32"), SF(32, "k_sint32", "int32", "map", FALSE, "", "sint32"),
+           SF(33, "k_sint64", "int32", "map", FALSE, "", "sint64"), SF(34, "k_fixed32", "int32", "map", FALSE, "", "fixed32"), SF(35, "k_fixed64", "int32", "map", FALSE, "", "fixed64"),
+           SF(36, "k_sfixed32", "int32", "map", FALSE, "", "sfixed32"), SF(37, "k_sfixed64", "int32", "map", FALSE, "", "sfixed64"), SF(38, "k_uint64", "message", "map", FALSE, "Sub", "uint64"),
            SF(536870911, "r_fixed32", "fixed32", "rep", TRUE, "", "")>>
 Msgs == [Root |-> RootS, Sub |-> SubS]
 PSchemaJ == [msgs |-> Msgs, root |-> "Root"]
@@ -50,6 +53,18 @@ FieldPoolP ==
   \cup {PFld(2047, "map", <<PPair(PScal("int64", M1), s)>>) : s \in SubVs}
   \cup {PFld(2048, "map", <<PPair(PScal("uint32", B8(0)), PScal("string", <<102>>)), PPair(PScal("uint32", <<0, 0, 0, 0, 255, 255, 255, 255>>), PScal("string", <<>>))>>)}
   \cup {PFld(536870911, "rep", <<PPair(PNone, PScal("fixed32", <<255, 0, 0, 1>>)), PPair(PNone, PScal("fixed32", <<0, 0, 0, 0>>))>>)}
+\* maps with every other key kind (C08, C09)
+KeyPoolP ==
+  {PFld(30, "map", <<PPair(PScal("bool", B8(0)), PScal("int32", B8(1))), PPair(PScal("bool", B8(1)), PScal("int32", M1))>>),
+   PFld(31, "map", <<PPair(PScal("int32", B8(5)), PScal("string", <<>>)), PPair(PScal("int32", Min32), PScal("string", <<97>>))>>),
+   PFld(32, "map", <<PPair(PScal("sint32", M1), PScal("int32", B8(2)))>>),
+   PFld(33, "map", <<PPair(PScal("sint64", <<128, 0, 0, 0, 0, 0, 0, 0>>), PScal("int32", B8(3)))>>),
+   PFld(34, "map", <<PPair(PScal("fixed32", <<255, 255, 255, 255>>), PScal("int32", B8(4)))>>),
+   PFld(35, "map", <<PPair(PScal("fixed64", M1), PScal("int32", B8(5)))>>),
+   PFld(36, "map", <<PPair(PScal("sfixed32", <<128, 0, 0, 0>>), PScal("int32", B8(6)))>>),
+   PFld(37, "map", <<PPair(PScal("sfixed64", M1), PScal("int32", B8(7)))>>),
+   PFld(38, "map", <<PPair(PScal("uint64", B8(1)), PMsgV(<<PFld(1, "one", <<PPair(PNone, PScal("int32", B8(9)))>>)>>)), PPair(PScal("uint64", M1), PMsgV(<<>>))>>)}
+KeyMsgs == {PMsgV(<<f>>) : f \in KeyPoolP} \cup {PMsgV(<<f, g>>) : f \in {x \in FieldPoolP : x.num \in {3, 21}}, g \in KeyPoolP}
 \* messages: no field, one field, two fields (ascending field numbers, as the reference emits them)
 RootMsgs(two) == {PMsgV(<<>>)} \cup {PMsgV(<<f>>) : f \in FieldPoolP}
                  \cup (IF two THEN {PMsgV(<<f, g>>) : f \in FieldPoolP, g \in {x \in FieldPoolP : x.num \in {17, 21, 22, 2047, 18, 14}}} ELSE {})
